@@ -448,3 +448,53 @@ func init() {
 		panic(unsupported{"CanonicalHeaderKey of a symbolic header name"})
 	})
 }
+
+// net/url unescaping of symbolic strings (query-component mode: '+' is a
+// space, %XX is a byte). Forks on the class of each byte.
+func (i *interpreter) urlUnescapeSym(fr *frame, s symStr, plusIsSpace bool) value {
+	c := i.ctx()
+	isHex := func(b value) bool {
+		return i.truth(i.orV(i.orV(
+			i.andV(i.notV(i.byteLess(b, uint8('0'))), i.notV(i.byteLess(uint8('9'), b))),
+			i.andV(i.notV(i.byteLess(b, uint8('a'))), i.notV(i.byteLess(uint8('f'), b)))),
+			i.andV(i.notV(i.byteLess(b, uint8('A'))), i.notV(i.byteLess(uint8('F'), b)))))
+	}
+	unhex := func(b value) *sym.Term {
+		t := i.term(b)
+		dig := c.App("bvsub", sym.BV8, t, c.BVLit('0', 8))
+		low := c.App("bvadd", sym.BV8, c.App("bvsub", sym.BV8, t, c.BVLit('a', 8)), c.BVLit(10, 8))
+		up := c.App("bvadd", sym.BV8, c.App("bvsub", sym.BV8, t, c.BVLit('A', 8)), c.BVLit(10, 8))
+		return c.Ite(c.App("bvule", sym.Bool, t, c.BVLit('9', 8)), dig, c.Ite(c.App("bvuge", sym.Bool, t, c.BVLit('a', 8)), low, up))
+	}
+	var out []value
+	for p := 0; p < len(s.b); p++ {
+		b := s.b[p]
+		if i.truth(i.byteEq(b, uint8('%'))) {
+			if p+2 >= len(s.b) || !isHex(s.b[p+1]) || !isHex(s.b[p+2]) {
+				t := lookupType("net/url", "EscapeError")
+				return tuple{"", iface{t: t, v: "%"}}
+			}
+			hi, lo := unhex(s.b[p+1]), unhex(s.b[p+2])
+			out = append(out, i.mkSym(c.App("bvor", sym.BV8, c.App("bvshl", sym.BV8, hi, c.BVLit(4, 8)), lo), types.Uint8))
+			p += 2
+			continue
+		}
+		if plusIsSpace && i.truth(i.byteEq(b, uint8('+'))) {
+			out = append(out, uint8(' '))
+			continue
+		}
+		out = append(out, b)
+	}
+	return tuple{symStr{out}.norm(), iface{}}
+}
+
+func init() {
+	summaries["net/url.QueryUnescape"] = func(fr *frame, a []value) value {
+		checkNoOpaque("url.QueryUnescape", a...)
+		return fr.i.urlUnescapeSym(fr, toSymStr(a[0]), true)
+	}
+	summaries["net/url.PathUnescape"] = func(fr *frame, a []value) value {
+		checkNoOpaque("url.PathUnescape", a...)
+		return fr.i.urlUnescapeSym(fr, toSymStr(a[0]), false)
+	}
+}
